@@ -28,6 +28,23 @@ MUTANTS = {
         ("abssum-one-side", "aldy/lpinterface.py", 'self.addConstr(absvar - v >= 0, name=f"CABSR_{i}")', "pass"),
         ("escape-no-suffix", "aldy/lpinterface.py", 'return s + f"_{d[s]}"', "return s"),
     ],
+    "C10": [
+        ("minor-gap-filter-dropped", "aldy/genotype.py", "            if m.score - min_minor_score - profile.gap < SOLUTION_PRECISION", "            if True"),
+        ("major-gap-filter-dropped", "aldy/genotype.py", "            if m.score - min_major_score - profile.gap < SOLUTION_PRECISION", "            if True"),
+        ("cn-score-difference-forgotten", "aldy/genotype.py", "s.score += cn_sol.score - min_cn_score", "s.score += 0"),
+        ("no-major-returns-empty", "aldy/genotype.py", 'raise AldyException("No major solutions found!")', "return {}"),
+        ("no-cn-empty-line-omitted", "aldy/genotype.py", '        if is_simple:\n            print(file=output_file)\n        raise AldyException("No solutions found!")', '        raise AldyException("No solutions found!")'),
+        ("minor-sorted-descending", "aldy/genotype.py", "        key=lambda m: (int(1000 * m.score), m._solution_nice()),\n    )\n    log.debug(\"*\" * 80)\n\n    if multiple_warn_level >= 1", "        key=lambda m: (-int(1000 * m.score), m._solution_nice()),\n    )\n    log.debug(\"*\" * 80)\n\n    if multiple_warn_level >= 1"),
+        ("minor-rescale-dropped", "aldy/genotype.py", "            * ((m.major_solution.cn_solution.score + SLACK) / (min_cn_score + SLACK)),", "            * 1,"),
+    ],
+    "C17": [
+        ("dump-without-indel-sites", "aldy/sam.py", "                    self._indel_sites,  # TODO: remove", "                    {k: [0, 0] for k in self._indel_sites},"),
+        ("dump-without-phases", "aldy/sam.py", "                    [v for v in self.phases.values() if len(v) > 1],", "                    [],"),
+        ("dump-without-neutral-depth", "aldy/sam.py", "                    self._dump_cn,\n                    {p: Counter(q) for p, q in norm.items()},", "                    {k: v // 2 for k, v in self._dump_cn.items()},\n                    {p: Counter(q) for p, q in norm.items()},"),
+        ("dump-params-not-reapplied", "aldy/genotype.py", '    if kind == "dump":\n        profile.update(params)', '    if kind == "dump":\n        pass'),
+        ("genome-marker-wrong-build", "aldy/sam.py", "            print(self.gene.genome, file=fd)", '            print("hg19", file=fd)'),
+        ("dump-reader-drops-multiplicity", "aldy/sam.py", "        muts = {p: [q for q, n in c.items() for _ in range(n)] for p, c in muts.items()}", "        muts = {p: [q for q, n in c.items() for _ in range(min(n, 15))] for p, c in muts.items()}"),
+    ],
     "C14": [
         ("patch:own-c14-mutations-accessor",),
         ("patch:own-c14-minor-filter-closure",),
